@@ -8,7 +8,8 @@ args = [a for a in sys.argv[1:] if not a.startswith('--')]
 allprops = '--all-props' in sys.argv
 update = '--update' in sys.argv
 claimed = [c['property_id'] for c in json.load(open(V + '/MANIFEST.json'))['checks']]
-seeds = sorted(os.listdir(V + '/seeded')) if not args else args
+allseeds = sorted(d for d in os.listdir(V + '/seeded') if os.path.exists(os.path.join(V, 'seeded', d, 'meta.json')))
+seeds = allseeds if not args else [d for d in allseeds if any(d == a or d.startswith(a + '-') for a in args)]
 base = tempfile.mkdtemp(prefix='seedrun-')
 try:
     pristine = os.path.join(base, 'pristine')
